@@ -58,6 +58,9 @@ structure Cfg where
   /-- `true` = the code as it is (buffered_stream.go:28-32, fix f074f78): a closed channel without the marker while
       ctx is cancelled is the context's error; `false` = the earlier behaviour (EOF), kept for the D7 witness. -/
   fix7 : Bool := true
+  /-- `true` = the code as it is (fix f9673b7: the lifecycle Close cancels the filler's context and waits for the filler);
+      `false` = the earlier code, whose Close did nothing: the terminal returned right after cancelling. -/
+  fixJoin : Bool := true
   deriving DecidableEq, Repr
 
 def Cfg.cap (cfg : Cfg) : Nat := cfg.size - 1
@@ -175,7 +178,8 @@ def step (cfg : Cfg) (s : St) : Label → Option St
   | .cRepull => if s.cons = .got then some { s with cons := .sel } else none
   | .cStop => if s.cons = .got then some { s with cons := .close2, res := some .ok, stopped := true } else none
   | .cFail => if s.cons = .got then some { s with cons := .close2, res := some .errOther, stopped := true } else none
-  | .cClose2 => if s.cons = .close2 then some { s with cons := .join, term1 := true } else none
+  | .cClose2 =>
+    if s.cons = .close2 then some { s with cons := if cfg.fixJoin then .join else .ret, term1 := true } else none
   | .cJoin =>      -- buffered_stream.go `stopBuffering`: `<-bufferingDone`, closed by the filler's first deferred call
     if s.cons = .join ∧ s.f = .done then some { s with cons := .ret } else none
   | .cancel => if s.ctx0 then none else some { s with ctx0 := true }
